@@ -17,6 +17,67 @@ from . import c01, c05
 KNOWN_D30 = 'no-Cp correlation evaluated at its T_ref outside its own range'
 
 
+def _merge_history(ctx, report):
+    """An estimate made from one library, before or after that library was merged into another one
+    that is then extended by overwriting: the estimate's range stays the intersection of the ranges
+    of its constituents, and temperatures outside it stay refused (Estimate.tla RangeIsIntersection /
+    OutsideSignalled, over the histories of Lifecycle.tla's Update)."""
+    from pgradd.GroupAdd.Group import Descriptor
+    from pgradd.ThermoChem import ThermochemGroup
+    GL = el.GroupLibrary
+    cp_a = {300.0: 3.0, 500.0: 4.0, 800.0: 4.5, 1000.0: 5.0}
+    cp_w = dict(cp_a)
+    cp_w[1500.0] = 5.5
+    cp_n = {300.0: 3.0, 500.0: 4.0}
+
+    def key(nm):
+        return Descriptor(None, nm)
+
+    def lib(entries):
+        return GL(None, dict((key(nm), {'thermochem': ThermochemGroup(h, s_, cp, 298.15, rng)})
+                             for nm, (h, s_, cp, rng) in entries.items()))
+    n = 0
+    for est_first in (False, True):
+        for refit_cp, refit_rng in ((cp_w, (200.0, 1500.0)), (cp_n, (298.15, 500.0)), (cp_w, (298.15, 1500.0))):
+            label = ('estimate made %s the merge; refit range %s' % ('before' if est_first else 'after', refit_rng,))
+            kind, res, _ = call(lambda: (lib({'A': (-10.0, 12.0, cp_a, (298.15, 1000.0)),
+                                              'B': (-4.0, 7.5, cp_w, (250.0, 1500.0))}), GL(None, {})))
+            if kind == 'error':
+                raise MachineryError('scratch libraries cannot be made: %r' % res)
+            reference, working = res
+            if est_first:
+                est = reference.Estimate({'A': 2, 'B': 1}, 'thermochem')
+            k1, e1, _ = call(working.Update, reference)
+            if not est_first:
+                est = reference.Estimate({'A': 2, 'B': 1}, 'thermochem')
+            before = est.get_range()
+            k2, e2, _ = call(working.Update, lib({'A': (-10.0, 12.0, refit_cp, refit_rng)}), True)
+            if k1 == 'error' or k2 == 'error':
+                continue           # merging itself is C13
+            ctx.count('merge-history:' + label)
+            want = (298.15, 1000.0)
+            groups_now = [reference[g]['thermochem'].get_range() for g in ('A', 'B')]
+            inter = (max(r[0] for r in groups_now), min(r[1] for r in groups_now))
+            got = est.get_range()
+            n += 1
+            if tuple(got) != want or tuple(before) != want or tuple(inter) != want:
+                report('range', 'merge-history-range:' + label,
+                       'estimate from a library merged into another that was then extended (%s): range reported %r '
+                       '(before the extension %r), its constituents now have %r; the intersection of the ranges given is %r'
+                       % (label, got, before, groups_now, want))
+                continue
+            for T in (1000.5, 1200.0, 1500.0, 298.0, 250.0):
+                for g_ in ('get_CpoR', 'get_HoRT', 'get_SoR', 'get_GoRT'):
+                    k3, v3, w3 = call(getattr(est, g_), T)
+                    n += 1
+                    if k3 == 'value' and not w3:
+                        report('class', 'merge-history:%s:%s(%g)' % (label, g_, T),
+                               'estimate from a library merged into another that was then extended (%s): %s(%g) -> %r '
+                               'without error or warning outside its range %r' % (label, g_, T, v3, got))
+    ctx.evaluations += n
+    ctx.extra['merge_histories'] = 6
+
+
 def run(ctx):
     thorough = ctx.tier == 'thorough'
     cases = cl.run_mc(ctx, 'MC_Correlation_t.cfg' if thorough else 'MC_Correlation_q.cfg')
@@ -56,6 +117,7 @@ def run(ctx):
     libs = list(libs) + [os.path.join(zd, 'library.yaml')]
     c01.real_sessions(ctx, libs, 200 if thorough else 40, 1 if thorough else 4,
                       ('class', 'range'), report, ctx.seed + 1)
+    _merge_history(ctx, report)
     ctx.extra['mc'] = {'correlation_cases': len(cases), 'estimate_mappings': len(maps)}
     ctx.exhaustive = True
     ctx.assumptions += [
